@@ -47,6 +47,21 @@ class Station:
         for p in ports:
             self.btp.register_indication_callback_btp(p, self._handler(p))
         self.btp.freeze_callbacks()
+        # boundary recorder: exceptions that the router's own guard discards are still made visible to the
+        # monitors (ether.errors), exactly as they were when they propagated to the receive loop
+        self.rx_exceptions = []
+        orig_pbh = self.router.process_basic_header
+
+        def recording_pbh(packet, _orig=orig_pbh):
+            try:
+                return _orig(packet)
+            except NotImplementedError:
+                raise
+            except Exception as e:  # noqa
+                self.rx_exceptions.append(e)
+                ether.errors.append((name, "<guarded>", bytes(packet), e))
+                raise
+        self.router.process_basic_header = recording_pbh
         self.ll = ether.attach(name, self.router.gn_data_indicate)
         self.router.link_layer = self.ll
         if set_pv:
